@@ -383,6 +383,19 @@ type Gen struct {
 	Rng *rand.Rand
 	// Small keeps values short so that nested records fit into cells more often.
 	Small bool
+	// Sweep = k+1 (k >= 0) makes the choice of boundary pattern (0, 1, max, top bit, ...) deterministic for the next
+	// value: it starts at pattern k and advances with every scalar generated, so the first values of every type walk
+	// through all boundary patterns instead of leaving them to chance. 0: random.
+	Sweep int
+	calls int
+}
+
+func (g *Gen) pattern(n int) int {
+	if g.Sweep <= 0 {
+		return g.Rng.Intn(n)
+	}
+	g.calls++
+	return (g.Sweep - 1 + g.calls - 1) % n
 }
 
 func (g *Gen) bigBelow(bits int) *big.Int {
@@ -390,7 +403,7 @@ func (g *Gen) bigBelow(bits int) *big.Int {
 		return big.NewInt(0)
 	}
 	lim := new(big.Int).Lsh(big.NewInt(1), uint(bits))
-	switch g.Rng.Intn(6) {
+	switch g.pattern(6) {
 	case 0:
 		return big.NewInt(0)
 	case 1:
@@ -713,6 +726,7 @@ func init() {
 
 // New returns a new random value of type t (addressable).
 func (g *Gen) New(t reflect.Type) reflect.Value {
+	g.calls = 0
 	v := reflect.New(t).Elem()
 	g.Fill(v, "", 0)
 	return v
